@@ -3385,4 +3385,107 @@ theorem cleanupFoldOwn_wc {g1 : LGraph} (imp : String) (s nm : String) (n : Nat)
         · exact Or.inr h1
 
 
+theorem idx_none_of_out_nil (g : LGraph) (T : DS) (h : g.outEdges (.ds T) = []) : ∀ x, g.idx (.ds T) x = none := by
+  intro x
+  have : (Node.ds T, x) ∉ g.edges := by
+    intro he
+    have := (mem_outEdges g _ _).mpr he
+    rw [h] at this; cases this
+  simp [Graph.idx, Graph.hasEdge, this]
+
+/-- `cleanupGroup` on the FIRST group of a set operation (or the only group) when every item has a source and the item names
+    are pairwise different: own‑name wiring, and the target owns exactly the items' columns afterwards -/
+theorem cleanupGroup_first {g1 : LGraph} (imp : String) (s nm : String) (tabs : List DObj) (k : Nat)
+    (KEYS : ColSpec → List Node) (cols : List ColSpec)
+    (hws : writeSet g1 = [.table s nm]) (hnr : DS.table s nm ∉ readSet g1) (hg1 : ∀ m ∈ g1.nodes, m.isCol = false)
+    (hout : g1.outEdges (.ds (.table s nm)) = []) (hbase : Wired g1 g1 [])
+    (hnd : (cols.map (fun c => (Column.mk1 c.raw (some (DS.table s nm, s ++ "." ++ nm))).key)).Nodup)
+    (hsrc : ∀ c ∈ cols, KEYS c ≠ [] ∧ ∀ g, Frame g1 g →
+      (∀ x, x ∈ (toSourceColumns imp (aliasMapping g tabs) c k).map (·.key) ↔ x ∈ KEYS c) ∧
+      (∀ y ∈ toSourceColumns imp (aliasMapping g tabs) c k, colOK y ∧ ∀ sp, y.parent? = some sp → sp.1 ≠ .table s nm)) :
+    ∃ g', cleanupGroup imp g1 cols tabs k = .ok g' ∧ Wired g1 g' (keyPairs KEYS (.table s nm, s ++ "." ++ nm) cols) ∧
+      WC (.table s nm) (cols.map (fun c => Column.mk1 c.raw (some (DS.table s nm, s ++ "." ++ nm)))) g' := by
+  obtain ⟨g', hg', hw, hwc, _⟩ := cleanupFoldOwn_wc imp s nm cols.length tabs k KEYS hws hnr hg1 cols [] g1 [] hbase
+    ⟨by simpa using hout, by simp, by simp⟩ (idx_none_of_out_nil g1 _ hout) (by simp) (by simp) (by simpa using hnd) hsrc
+  refine ⟨g', ?_, by simpa using hw, by simpa using hwc⟩
+  unfold cleanupGroup
+  rw [hws]
+  simp only
+  have : (cols.zipIdx).foldlM
+      (fun g ci => cleanupItem imp (.table s nm, printedDS g (.table s nm)) cols.length tabs g ci k) g1 = .ok g' := by
+    simpa using hg'
+  rw [this]
+
+/-- `cleanupGroup` on a LATER group: as many items as the target has columns, wired by position -/
+theorem cleanupGroup_pos {g1 g : LGraph} {K : List (Node × Node)} (imp : String) (s nm : String) (tabs : List DObj) (k : Nat)
+    (KEYS : ColSpec → List Node) (cols : List ColSpec) (colsW : List Column)
+    (hws : writeSet g1 = [.table s nm]) (hnr : DS.table s nm ∉ readSet g1)
+    (hcw : ∀ c ∈ colsW, c.parent? = some (DS.table s nm, s ++ "." ++ nm) ∧ colOK c)
+    (h : Wired g1 g K) (hwc : WC (.table s nm) colsW g) (hlen : cols.length = colsW.length)
+    (hsrc : ∀ c ∈ cols, ∀ g, Frame g1 g →
+      (∀ x, x ∈ (toSourceColumns imp (aliasMapping g tabs) c k).map (·.key) ↔ x ∈ KEYS c) ∧
+      (∀ y ∈ toSourceColumns imp (aliasMapping g tabs) c k, colOK y ∧ ∀ sp, y.parent? = some sp → sp.1 ≠ .table s nm)) :
+    ∃ g', cleanupGroup imp g cols tabs k = .ok g' ∧ Wired g1 g' (K ++ posPairs KEYS (cols.zip colsW)) ∧
+      WC (.table s nm) colsW g' := by
+  obtain ⟨g', hg', hw, hwc'⟩ := cleanupFoldPos_wired imp s nm cols.length tabs k KEYS colsW hlen.symm hws hnr hcw cols colsW []
+    g K rfl hlen h hwc hsrc
+  refine ⟨g', ?_, hw, hwc'⟩
+  have hwg : writeSet g = [.table s nm] := by unfold writeSet; rw [tagSet_eq_of_frame h.frame]; exact hws
+  unfold cleanupGroup
+  rw [hwg]
+  simp only
+  have : (cols.zipIdx).foldlM
+      (fun g ci => cleanupItem imp (.table s nm, printedDS g (.table s nm)) cols.length tabs g ci k) g = .ok g' := by
+    simpa using hg'
+  rw [this]
+
+/-- the later groups of a set operation, one after the other -/
+theorem groupsPos_wired {g1 : LGraph} (imp : String) (s nm : String) (k : Nat) (colsW : List Column)
+    (hws : writeSet g1 = [.table s nm]) (hnr : DS.table s nm ∉ readSet g1)
+    (hcw : ∀ c ∈ colsW, c.parent? = some (DS.table s nm, s ++ "." ++ nm) ∧ colOK c) :
+    ∀ (grps : List (List ColSpec × List DObj)) (g : LGraph) (K : List (Node × Node)), Wired g1 g K →
+      WC (.table s nm) colsW g →
+      (∀ grp ∈ grps, grp.1.length = colsW.length ∧ ∀ c ∈ grp.1, ∀ g, Frame g1 g →
+        (∀ x, x ∈ (toSourceColumns imp (aliasMapping g grp.2) c k).map (·.key) ↔ x ∈ c.srcs.flatMap (srcKeys imp grp.2)) ∧
+        (∀ y ∈ toSourceColumns imp (aliasMapping g grp.2) c k,
+          colOK y ∧ ∀ sp, y.parent? = some sp → sp.1 ≠ .table s nm)) →
+      ∃ g', grps.foldlM (fun g grp => cleanupGroup imp g grp.1 grp.2 k) g = .ok g' ∧
+        Wired g1 g' (K ++ grps.flatMap (fun grp => posPairs (KEYSof imp grp.2) (grp.1.zip colsW)))
+  | [], g, K, h, _, _ => ⟨g, rfl, by simpa using h⟩
+  | grp :: r, g, K, h, hwc, hall => by
+    obtain ⟨hl, hs⟩ := hall grp (by simp)
+    obtain ⟨g', hg', hw', hwc'⟩ := cleanupGroup_pos imp s nm grp.2 k (KEYSof imp grp.2) grp.1 colsW hws hnr hcw h hwc hl hs
+    obtain ⟨g'', hg'', hw''⟩ := groupsPos_wired imp s nm k colsW hws hnr hcw r g' _ hw' hwc'
+      (fun grp' hg => hall grp' (by simp [hg]))
+    refine ⟨g'', ?_, by simpa [List.append_assoc] using hw''⟩
+    simp only [List.foldlM_cons, bind, Except.bind, hg']
+    exact hg''
+
+/-! ### `end_of_query_cleanup` with union barriers is the loop over the groups -/
+
+/-- the cumulative end positions of the groups (what `end_of_query_cleanup` iterates over) -/
+def ends (c t : Nat) : List (List ColSpec × List DObj) → List (Nat × Nat)
+  | [] => []
+  | grp :: r => (c + grp.1.length, t + grp.2.length) :: ends (c + grp.1.length) (t + grp.2.length) r
+
+theorem slice_mid {α : Type} (pre x post : List α) : slice (pre ++ (x ++ post)) pre.length (pre.length + x.length) = x := by
+  simp [slice, List.drop_left, List.take_left]
+
+theorem go_groups (imp : String) (k : Nat) : ∀ (grps : List (List ColSpec × List DObj)) (preC : List ColSpec)
+    (preT : List DObj) (g : LGraph),
+    endOfQueryCleanup.go imp (preT ++ grps.flatMap (·.2)) (preC ++ grps.flatMap (·.1)) k g (preC.length, preT.length)
+        (ends preC.length preT.length grps) =
+      grps.foldlM (fun g grp => cleanupGroup imp g grp.1 grp.2 k) g
+  | [], _, _, _ => by simp [ends, endOfQueryCleanup.go, pure, Except.pure]
+  | grp :: r, preC, preT, g => by
+    simp only [ends, endOfQueryCleanup.go, List.flatMap_cons, slice_mid, List.foldlM_cons, bind, Except.bind]
+    cases hcg : cleanupGroup imp g grp.1 grp.2 k with
+    | error e => rfl
+    | ok g' =>
+      simp only
+      have := go_groups imp k r (preC ++ grp.1) (preT ++ grp.2) g'
+      simp only [List.length_append, List.append_assoc] at this
+      exact this
+
+
 end SqlLineage.ColumnsExact
